@@ -378,7 +378,13 @@ class LaneEval:
             self._stmt(f, f.N[n['body']], env, depth, ret)
             return
         if k == 'IfStmt':
-            # clip branches etc.: only the fall-through (no-branch) path is followed; branches that `continue` are separate facts (SCALE)
+            # clip branches etc.: only the fall-through (no-branch) path is followed; branches that `continue` are separate facts (SCALE).
+            # Written as a chain `if (hi) d = MAX ; else if (lo) d = MIN ; else d = f (x) ;` the fall-through path is the final else.
+            cur = n
+            while cur['k'] == 'IfStmt' and cur.get('else') is not None:
+                cur = f.N[cur['else']]
+            if cur is not n and cur['k'] != 'IfStmt':
+                self._stmt(f, cur, env, depth, ret)
             return
         if k == 'ReturnStmt':
             if n['kids']:
